@@ -121,6 +121,92 @@ theorem level_target (minFreq : Rat) (strNan : Val) (lvl : GL) (counts : Counts)
   refine List.mem_map.2 ⟨(v, countOf counts v), List.mem_filter.2 ⟨hfreq.1, ?_⟩, rfl⟩
   simp [hfreq.2.1, hfreq.2.2]
 
+/-! ## Frequencies are "among all rows" at every level, and the whole `fit` -/
+
+theorem foldl_add_nat (l : List Nat) (a : Nat) : l.foldl (· + ·) a = a + l.sum := by
+  induction l generalizing a with
+  | nil => simp
+  | cons x t ih => simp only [List.foldl_cons, ih, List.sum_cons]; omega
+
+theorem totalRows_eq_sum (c : Counts) : totalRows c = (c.map (·.2)).sum := by
+  unfold totalRows; rw [foldl_add_nat]; omega
+
+theorem addCount_total : ∀ (c : Counts) (v : Val) (n : Nat), totalRows (addCount c v n) = totalRows c + n
+  | [], v, n => by simp [addCount, totalRows]
+  | (w, m) :: t, v, n => by
+    unfold addCount
+    split
+    · simp only [totalRows_eq_sum, List.map_cons, List.sum_cons]; omega
+    · have := addCount_total t v n
+      simp only [totalRows_eq_sum, List.map_cons, List.sum_cons] at this ⊢
+      omega
+
+theorem foldl_addCount_total (target : Val × Nat → Val) : ∀ (cs acc : Counts),
+    totalRows (cs.foldl (fun acc p => addCount acc (target p) p.2) acc) = totalRows acc + totalRows cs
+  | [], acc => by simp [totalRows]
+  | p :: t, acc => by
+    rw [List.foldl_cons, foldl_addCount_total target t, addCount_total]
+    simp only [totalRows_eq_sum, List.map_cons, List.sum_cons]
+    omega
+
+/-- **Rewriting rare values to their group moves rows, it never loses or invents any**: the number of rows that the
+    frequencies of the next level are taken over is the number of rows of the column (`min_freq` is a share of *all* rows
+    at every level of the hierarchy). -/
+theorem level_total (minFreq : Rat) (strNan : Val) (lvl : GL) (st st' : St)
+    (hs : level minFreq strNan lvl st = .ok st') : totalRows st'.counts = totalRows st.counts := by
+  unfold level at hs
+  dsimp only at hs
+  split at hs
+  · cases hs
+  · injection hs with hs
+    subst hs
+    simp only []
+    rw [foldl_addCount_total]
+    simp [totalRows]
+
+theorem fitLevels_total (minFreq : Rat) (strNan : Val) : ∀ (levels : List GL) (st st' : St),
+    fitLevels minFreq strNan levels st = .ok st' → totalRows st'.counts = totalRows st.counts := by
+  intro levels
+  induction levels with
+  | nil => intro st st' hs; simp only [fitLevels] at hs; injection hs with hs; subst hs; rfl
+  | cons l rest ih =>
+    intro st st' hs
+    simp only [fitLevels] at hs
+    cases h1 : level minFreq strNan l st with
+    | error e => rw [h1] at hs; cases hs
+    | ok st1 =>
+      rw [h1] at hs
+      rw [ih st1 st' hs, level_total minFreq strNan l st st1 h1]
+
+/-- **The whole `fit` of one feature**: when it completes, the fitted order comes from the order `_prepare_data` left
+    (unknown values handled, missing-value modality added) by merges along the hierarchy only — it is a well-formed
+    partition holding every value that order held, whatever the depth of the hierarchy. -/
+theorem fit_preserves (order : GL) (known : List Val) (levels : List GL) (strNan : Val) (drop : Bool) (minFreq : Rat)
+    (counts : Counts) (g : GL) (h : fit order known levels strNan drop minFreq counts = .ok g) :
+    ∃ o, prepare order known strNan drop counts = .ok o ∧ (o.WF → g.WF ∧ ∀ v ∈ o.values, v ∈ g.values) := by
+  unfold fit at h
+  cases hp : prepare order known strNan drop counts with
+  | error e => rw [hp] at h; cases h
+  | ok o =>
+    rw [hp] at h
+    refine ⟨o, rfl, fun hw => ?_⟩
+    dsimp only at h
+    cases hf : fitLevels minFreq strNan levels ⟨o, counts⟩ with
+    | error e => rw [hf] at h; cases h
+    | ok st =>
+      rw [hf] at h
+      injection h with h
+      subst h
+      exact fitLevels_preserves minFreq strNan levels ⟨o, counts⟩ st hw hf
+
+/-- `fit` either completes or raises an AssertionError coming from `_prepare_data` or from a `GroupedList` step: with
+    `unknown_handling='raise'` and an unknown value it is the AssertionError of `unknown_raise`. -/
+theorem fit_unknown_raise (order : GL) (known : List Val) (levels : List GL) (strNan : Val) (minFreq : Rat)
+    (counts : Counts) (u : Val) (hu : u ∈ counts.map (·.1)) (hk : u ∉ known) (hn : u ≠ strNan) :
+    fit order known levels strNan false minFreq counts = .error (Err.assertion "unknown values") := by
+  unfold fit
+  rw [unknown_raise order known strNan counts u hu hk hn]
+
 /-! ## Non-vacuity -/
 private def lvl0 : GL := ⟨[.str "G"], [(.str "G", [.str "a", .str "b", .str "G"])]⟩
 private def ord0 : GL := GL.ofList [.str "a", .str "b", .str "G"]
